@@ -36,6 +36,10 @@ type replay struct {
 	Out   string `json:"vrf_output,omitempty"` // below / leader (hex)
 	Thr   string `json:"threshold,omitempty"`  // below ("" = nil)
 	Got   string `json:"got,omitempty"`
+	// history: a sequence of eligibility checks in one process with in-place
+	// mutation of the argument objects between the calls (history.go)
+	Steps []hstep `json:"steps,omitempty"`
+	Step  int     `json:"step,omitempty"` // index of the failing step
 }
 
 func bi(s string) *big.Int {
@@ -143,6 +147,8 @@ type env struct {
 	certBuf  []string
 	certRp   []replay
 	certFile int
+	wantMemo map[string]*big.Int
+	seenCase map[string]bool
 	coqMax int // largest bit size sent to the Coq model
 }
 
@@ -566,18 +572,61 @@ func (e *env) evalBelow(rp replay) {
 func (e *env) evalLeader(rp replay) {
 	out := vh.UnHex(rp.Out)
 	var f *big.Rat
-	var fn, fd *big.Int
 	if rp.FN != "" {
 		f = new(big.Rat).SetFrac(bi(rp.FN), bi(rp.FD))
-		fn, fd = f.Num(), f.Denom()
 	}
 	e.c.Begin(rp)
 	got, err := consensus.IsSlotLeaderFromComponentsWithMode(out, rp.Pool, rp.Total, f, consensus.ConsensusMode(rp.Mode))
-	ec := errClass(err)
-	e.c.Res.Count(fmt.Sprintf("leader/%d/%s/%d/%d/%s/%s", rp.Mode, rp.Out, rp.Pool, rp.Total, rp.FN, rp.FD), len(out) == 64, "leader-"+rp.Class)
+	e.judgeLeader(rp, out, f, got, errClass(err), rp, false)
+}
+
+// independent threshold for in-domain arguments (memoised: histories revisit values)
+func (e *env) wantThreshold(f *big.Rat, pool, total uint64, k uint) (*big.Int, bool) {
+	if pool > total {
+		pool = total
+	}
+	key := fmt.Sprintf("%s/%d/%d/%d", f.RatString(), pool, total, k)
+	if e.wantMemo == nil {
+		e.wantMemo = map[string]*big.Int{}
+	}
+	if w, ok := e.wantMemo[key]; ok {
+		return w, w != nil
+	}
+	omf := new(big.Rat).Sub(big.NewRat(1, 1), f)
+	var want *big.Int
+	ok := false
+	if tEx, _, rational := exactValue(omf.Num(), omf.Denom(), new(big.Int).SetUint64(pool), new(big.Int).SetUint64(total), k); rational {
+		want, ok = tEx, true
+	} else {
+		want, ok, _, _ = certifiedFloor(omf.Num(), omf.Denom(), new(big.Int).SetUint64(pool), new(big.Int).SetUint64(total), k, k+4096)
+	}
+	if !ok {
+		want = nil
+	}
+	e.wantMemo[key] = want
+	return want, ok
+}
+
+func inDomainF(f *big.Rat) bool {
+	return f != nil && f.Sign() > 0 && f.Cmp(big.NewRat(1, 1)) < 0
+}
+
+// judgeLeader: monitor + correspondence case for one observed eligibility
+// verdict (got, ec) of a leader.go entry point on the argument VALUES
+// (out, rp.Pool, rp.Total, f, rp.Mode).  rep is the replay object reported;
+// hist says the call was one step of a history (key names the history if the
+// stateless threshold function itself is right for these values).
+func (e *env) judgeLeader(rp replay, out []byte, f *big.Rat, got bool, ec int, rep replay, hist bool) {
+	var fn, fd *big.Int
+	if f != nil {
+		f = new(big.Rat).Set(f)
+		fn, fd = f.Num(), f.Denom()
+	}
+	out = append([]byte(nil), out...)
+	e.c.Res.Count(fmt.Sprintf("leader/%d/%x/%d/%d/%v/%v", rp.Mode, out, rp.Pool, rp.Total, fn, fd), len(out) == 64, "leader-"+rp.Class)
 	k, modeOK := modeBits(rp.Mode)
 	var tbl []level
-	if modeOK && f != nil && f.Sign() > 0 && f.Cmp(big.NewRat(1, 1)) < 0 && rp.Pool > 0 && rp.Total > 0 && len(out) == 64 {
+	if modeOK && inDomainF(f) && rp.Pool > 0 && rp.Total > 0 && len(out) == 64 {
 		pool := rp.Pool
 		if pool > rp.Total {
 			pool = rp.Total
@@ -588,13 +637,7 @@ func (e *env) evalLeader(rp replay) {
 			tbl = observeLevels(omf, pool, rp.Total, U, 576, 1<<14)
 		}
 		// monitor: verdict = leader value < independent floor
-		var want *big.Int
-		ok := false
-		if tEx, _, rational := exactValue(omf.Num(), omf.Denom(), new(big.Int).SetUint64(pool), new(big.Int).SetUint64(rp.Total), k); rational {
-			want, ok = tEx, true
-		} else {
-			want, ok, _, _ = certifiedFloor(omf.Num(), omf.Denom(), new(big.Int).SetUint64(pool), new(big.Int).SetUint64(rp.Total), k, k+4096)
-		}
+		want, ok := e.wantThreshold(f, rp.Pool, rp.Total, k)
 		if ok && ec == 0 {
 			lv := out
 			if rp.Mode == 0 {
@@ -602,7 +645,16 @@ func (e *env) evalLeader(rp replay) {
 			}
 			w := new(big.Int).SetBytes(lv).Cmp(want) < 0
 			if w != got {
-				e.viol(fmt.Sprintf("leader-verdict-wrong-mode%d-%s", rp.Mode, rp.Class), fmt.Sprintf("eligible=%v, leader value < exact threshold is %v", got, w), rp)
+				key := fmt.Sprintf("leader-verdict-wrong-mode%d-%s", rp.Mode, rp.Class)
+				what := fmt.Sprintf("eligible=%v, leader value < exact threshold is %v", got, w)
+				if hist {
+					// is the stateless threshold function right for these values?
+					if t, err := consensus.CertifiedNatThresholdWithMode(rp.Pool, rp.Total, new(big.Rat).Set(f), consensus.ConsensusMode(rp.Mode)); err == nil && t.Cmp(want) == 0 {
+						key = "eligibility-depends-on-history"
+						what = fmt.Sprintf("step %d (%s) of a history of leadership checks: eligible=%v although leader value < floor(2^k(1-(1-f)^sigma)) is %v for the arguments of THIS call (f=%s pool=%d total=%d mode=%d); CertifiedNatThresholdWithMode on the same values is right, so the verdict depends on earlier calls / in-place changes of the argument objects", rep.Step, rp.Class, got, w, f.RatString(), rp.Pool, rp.Total, rp.Mode)
+					}
+				}
+				e.viol(key, what, rep)
 			}
 		}
 	}
@@ -614,8 +666,27 @@ func (e *env) evalLeader(rp replay) {
 		}
 		res = "(0, " + zi(b) + ")"
 	}
+	caseRep := rep
+	if hist {
+		// one Coq case per distinct (arguments, verdict) of a history; the case
+		// index keeps the stateless values only (the monitor reports histories
+		// with their full step list)
+		key := fmt.Sprintf("%d/%x/%d/%d/%v/%v/%s", rp.Mode, out, rp.Pool, rp.Total, fn, fd, res)
+		if e.seenCase == nil {
+			e.seenCase = map[string]bool{}
+		}
+		if e.seenCase[key] {
+			return
+		}
+		e.seenCase[key] = true
+		caseRep = rp
+		caseRep.Out = vh.Hex(out)
+		if fn != nil {
+			caseRep.FN, caseRep.FD = fn.String(), fd.String()
+		}
+	}
 	e.cf.Add(fmt.Sprintf("CLeader %s %s %s %s %s %s %s %s", zi(int64(rp.Mode)), vh.Bytes(out), vh.Bytes(leaderHash(out)), fOpt(fn, fd),
-		vh.BigZ(new(big.Int).SetUint64(rp.Pool)), vh.BigZ(new(big.Int).SetUint64(rp.Total)), tableCoq(tbl), res), rp)
+		vh.BigZ(new(big.Int).SetUint64(rp.Pool)), vh.BigZ(new(big.Int).SetUint64(rp.Total)), tableCoq(tbl), res), caseRep)
 }
 
 func (e *env) dispatch(rp replay) {
@@ -632,6 +703,8 @@ func (e *env) dispatch(rp replay) {
 		e.evalBelow(rp)
 	case "leader":
 		e.evalLeader(rp)
+	case "history":
+		e.runHistory(rp)
 	}
 }
 
@@ -730,7 +803,7 @@ func genF(r *vh.Rng, huge bool) (*big.Int, *big.Int) {
 }
 
 func run(c *vh.Ctx) error {
-	c.Res.Rule = "inputs (mode, pool, total, f) by class: typical coefficients x stakes over the uint64 range (tiny ratio, near total, above total, small rationals, boundaries, lovelace-sized), guard inputs (nil/<=0/>1/=1 coefficient, zero stakes, unknown mode), 1000-2100 bit coefficients, exact-rational cutoffs ((1-f) an exact m-th power, sigma=n/m), near-exact cutoffs (value within 2^-300..2^-2400 of an integer: forces escalation), monotonicity pairs; plus unit streams for exactIntegerNthRoot, the exact fast path, escalateThreshold/thresholdFromBoundedProbability at 4..64 start bits (unresolved/cap paths) and the eligibility test; distinct by the canonical input tuple; non-trivial = in-domain (0<f<1, stakes>0, known mode) for thresholds, n>0,k>0 for roots, 64-byte outputs for eligibility"
+	c.Res.Rule = "inputs (mode, pool, total, f) by class: typical coefficients x stakes over the uint64 range (tiny ratio, near total, above total, small rationals, boundaries, lovelace-sized), guard inputs (nil/<=0/>1/=1 coefficient, zero stakes, unknown mode), 1000-2100 bit coefficients, exact-rational cutoffs ((1-f) an exact m-th power, sigma=n/m), near-exact cutoffs (value within 2^-300..2^-2400 of an integer: forces escalation), monotonicity pairs; histories of leadership checks through leader.go (IsSlotLeaderFromComponentsWithMode, IsSlotLeaderWithMode, FindNextSlotLeadership) in one process with the coefficient Rat changed in place (SetFrac/Set/Add), fresh-but-equal Rats, the output buffer overwritten in place, stake/mode detours, leader values at T-1,T,T+1 of the old and new coefficient; plus unit streams for exactIntegerNthRoot, the exact fast path, escalateThreshold/thresholdFromBoundedProbability at 4..64 start bits (unresolved/cap paths) and the eligibility test; distinct by the canonical input tuple; non-trivial = in-domain (0<f<1, stakes>0, known mode) for thresholds, n>0,k>0 for roots, 64-byte outputs for eligibility"
 	c.Res.Modelled = []string{
 		"the big.Float ln/exp kernel (oneMinusFPowerSigmaBounds and below) is an oracle in the model: its [lo,hi] is recorded from the real code (reached with go:linkname) and its enclosure of (1-f)^sigma is checked per sample (monitor enclosure + Coq interval certificates of the final threshold), not proved universally",
 		"Blake2b-256 is a Section variable in the theorems; in the correspondence the harness supplies the digest (golang.org/x/crypto)",
@@ -983,6 +1056,8 @@ func run(c *vh.Ctx) error {
 			e.evalLeader(replay{Kind: "leader", Class: "zero-stake", Mode: mode, Out: vh.Hex(outs[0]), Pool: 0, Total: total, FN: "1", FD: "2"})
 		}
 	}
+	// ---- histories of eligibility checks with in-place argument mutation ----------------
+	e.genHistories()
 	e.cf.Flush()
 	e.flushCerts()
 	c.Res.TracesValidated = c.Res.CoqCases
